@@ -57,7 +57,7 @@ def robust_mode(ctx, binary, quick):
     dropped = evs[:k_on] + evs[k_on + 1:]
     moved = evs[:k] + [evs[k + 1], evs[k]] + evs[k + 2:]
     cf = ctx.path("robust-corrupt.ndjson")
-    vlib.write_ndjson(cf, [{"t": n + 1, "mode": "auto", "ev": c} for n, c in enumerate((flipped, dropped, moved))])
+    vlib.write_ndjson(cf, [{"t": n + 1, "mode": "auto", "cut": False, "ev": c} for n, c in enumerate((flipped, dropped, moved))])
     _, crej, _ = vlib.validate_traces(ctx, bc.SPECDIR, "RobustModeTrace", "RobustModeTrace.cfg", cf, 3, name="tv-robust-corrupt")
     if set(t for t, _ in crej) != {1, 2, 3}:
         raise vlib.Undecided("RobustModeTrace accepts a corrupted trace (rejected only %s of 3): the binding is lost" % sorted(set(t for t, _ in crej)))
